@@ -436,8 +436,9 @@ class PrettyPrinter:
                 if not isinstance(v, numbers.Number) and attr not in [
                     "offset",
                     "polaroffset",
+                    "shadowsize",
                 ]:
-                    # don't add quotes to list of attributes for offset / polaroffset
+                    # don't add quotes to list of attributes for offset / polaroffset / shadowsize
                     v = self.quoter.add_quotes(v)
                 new_values.append(v)
 
